@@ -511,7 +511,151 @@ def tr_symbolops():
     return '\n'.join(lines) + '\n'
 
 
-TRANSLATORS = [('ThreadProg.v', tr_threadprog), ('Consts.v', tr_consts), ('Preds.v', tr_preds), ('SymbolOps.v', tr_symbolops), ('Index.v', tr_index)]
+# ---------------------------------------------------------------- writes to objects not made in the same call
+
+MUTATORS = {'append', 'add', 'update', 'pop', 'popleft', 'clear', 'extend', 'insert', 'remove', 'setdefault', 'discard', 'appendleft',
+            'sort', 'reverse', 'popitem', 'extendleft', 'rotate', '__setitem__', '__delitem__', '__setattr__', '__delattr__'}
+FRESH_CALLS = {'list', 'dict', 'set', 'deque', 'defaultdict', 'tuple', 'sorted', 'frozenset', 'OrderedDict', 'Counter', 'bytearray',
+               'reversed', 'iter'}
+REFLECTIVE = {'setattr', 'delattr', 'globals', 'vars', 'exec', 'eval', 'locals'}
+
+
+def writes_inventory(path):
+    """Every statement of a source file that can change an object the running call did not create itself: assignments to and
+    deletions of attributes and items, and uses of mutating methods (called or taken as bound methods), whose receiver is not a
+    local variable bound only to freshly made objects (literals, comprehensions, constructor calls of built-in containers and of
+    the classes of the module); assignments to self attributes in __init__ are left out; module-level names bound to mutable
+    containers, class attributes bound to anything but constants, and reflective writes are listed as such.
+    Returns a sorted list of (function, kind, target text)."""
+    tree = module_ast(path)
+    classes = {n.name for n in tree.body if isinstance(n, ast.ClassDef)}
+    out = []
+    for n in tree.body:
+        if isinstance(n, ast.ImportFrom) and any(a.name == '*' for a in n.names):
+            raise Unsupported('star import in %s' % path)
+        if isinstance(n, (ast.Assign, ast.AnnAssign)) and n.value is not None:
+            v = n.value
+            mut = isinstance(v, (ast.List, ast.Dict, ast.Set, ast.ListComp, ast.DictComp, ast.SetComp)) or \
+                (isinstance(v, ast.Call) and isinstance(v.func, ast.Name) and v.func.id in FRESH_CALLS - {'tuple', 'frozenset', 'sorted'})
+            if mut:
+                for t in (n.targets if isinstance(n, ast.Assign) else [n.target]):
+                    out.append(('<module>', 'mutable', ast.unparse(t)))
+
+    def root(n):
+        while isinstance(n, (ast.Attribute, ast.Subscript)):
+            n = n.value
+        return n
+
+    def fresh_value(v):
+        if isinstance(v, (ast.List, ast.Dict, ast.Set, ast.ListComp, ast.DictComp, ast.SetComp, ast.GeneratorExp, ast.Tuple, ast.Constant,
+                          ast.JoinedStr)):
+            return True
+        return isinstance(v, ast.Call) and isinstance(v.func, ast.Name) and (v.func.id in FRESH_CALLS or v.func.id in classes)
+
+    def visit_fn(fn, qual, is_init):
+        a = fn.args
+        params = {x.arg for x in a.posonlyargs + a.args + a.kwonlyargs}
+        if a.vararg:
+            params.add(a.vararg.arg)
+        if a.kwarg:
+            params.add(a.kwarg.arg)
+        globs, binds = set(), {}
+        for n in ast.walk(fn):
+            if isinstance(n, (ast.Global, ast.Nonlocal)):
+                globs.update(n.names)
+            if isinstance(n, ast.Assign):
+                for t in n.targets:
+                    if isinstance(t, ast.Name):
+                        binds.setdefault(t.id, []).append(n.value)
+                    elif isinstance(t, (ast.Tuple, ast.List)):
+                        for e in ast.walk(t):
+                            if isinstance(e, ast.Name):
+                                binds.setdefault(e.id, []).append(None)
+            elif isinstance(n, (ast.AugAssign, ast.AnnAssign)) and isinstance(n.target, ast.Name):
+                binds.setdefault(n.target.id, []).append(None)
+            elif isinstance(n, (ast.For, ast.AsyncFor, ast.comprehension)):
+                for e in ast.walk(n.target):
+                    if isinstance(e, ast.Name):
+                        binds.setdefault(e.id, []).append(None)
+            elif isinstance(n, (ast.With, ast.AsyncWith)):
+                for it in n.items:
+                    if it.optional_vars is not None:
+                        for e in ast.walk(it.optional_vars):
+                            if isinstance(e, ast.Name):
+                                binds.setdefault(e.id, []).append(None)
+            elif isinstance(n, ast.NamedExpr):
+                binds.setdefault(n.target.id, []).append(n.value)
+            elif isinstance(n, ast.ExceptHandler) and n.name:
+                binds.setdefault(n.name, []).append(None)
+        fresh = {k for k, vs in binds.items() if k not in params and k not in globs and all(v is not None and fresh_value(v) for v in vs)}
+
+        def rec(target, how):
+            r = root(target)
+            if isinstance(target, ast.Name):
+                if target.id in globs:
+                    out.append((qual, how, ast.unparse(target)))
+                return
+            if isinstance(r, ast.Name):
+                if r.id in fresh:
+                    return
+                if r.id == 'self' and is_init and isinstance(target, ast.Attribute) and isinstance(target.value, ast.Name):
+                    return
+            out.append((qual, how, ast.unparse(target)))
+        for n in ast.walk(fn):
+            if isinstance(n, ast.Assign):
+                for t in n.targets:
+                    for e in (t.elts if isinstance(t, (ast.Tuple, ast.List)) else [t]):
+                        rec(e, 'assign')
+            elif isinstance(n, (ast.AugAssign, ast.AnnAssign)):
+                rec(n.target, 'assign')
+            elif isinstance(n, ast.Delete):
+                for t in n.targets:
+                    rec(t, 'del')
+            elif isinstance(n, ast.Attribute) and isinstance(n.ctx, ast.Load) and n.attr in MUTATORS:
+                rec(n, 'mutator')
+            elif isinstance(n, ast.Attribute) and n.attr == '__dict__':
+                out.append((qual, 'reflect', ast.unparse(n)))
+            elif isinstance(n, ast.Call) and isinstance(n.func, ast.Name) and n.func.id in REFLECTIVE:
+                out.append((qual, 'reflect', ast.unparse(n)[:60]))
+    for n in tree.body:
+        if isinstance(n, (ast.FunctionDef, ast.AsyncFunctionDef)):
+            visit_fn(n, n.name, False)
+        elif isinstance(n, ast.ClassDef):
+            for m in n.body:
+                if isinstance(m, (ast.FunctionDef, ast.AsyncFunctionDef)):
+                    visit_fn(m, n.name + '.' + m.name, m.name == '__init__')
+                elif isinstance(m, (ast.Assign, ast.AnnAssign)) and m.value is not None:
+                    v = m.value
+                    slots = isinstance(m, ast.Assign) and any(isinstance(t, ast.Name) and t.id == '__slots__' for t in m.targets)
+                    const = isinstance(v, (ast.Constant, ast.Lambda, ast.Name, ast.Attribute)) or \
+                        (isinstance(v, ast.Tuple) and all(isinstance(e, ast.Constant) for e in v.elts)) or \
+                        (slots and isinstance(v, (ast.List, ast.Tuple)) and all(isinstance(e, ast.Constant) for e in v.elts))
+                    if not const:
+                        for t in (m.targets if isinstance(m, ast.Assign) else [m.target]):
+                            out.append((n.name, 'classattr', ast.unparse(t)))
+                elif isinstance(m, ast.ClassDef):
+                    raise Unsupported('nested class %s.%s' % (n.name, m.name))
+    return sorted(set(out))
+
+
+def coq_string(s):
+    if any(ord(c) < 32 or ord(c) > 126 for c in s):
+        raise Unsupported('non-printable text in a write target: %r' % s)
+    return '"' + s.replace('"', '""') + '"'
+
+
+def tr_writes():
+    """gen/Writes.v: the inventory of both source files."""
+    inv = []
+    for f in ('_pyahocorasick.py', '__init__.py'):
+        inv += writes_inventory(os.path.join(REPO_SRC, f))
+    lines = ['(* generated from /repo/src/license_expression/*.py by harness/translators.py: do not edit *)',
+             'From Coq Require Import String List.', 'Import ListNotations.', 'Require Import Model.Writes.', 'Open Scope string_scope.', '',
+             'Definition writes : list write :=', '  [ ' + ';\n    '.join('(%s, %s, %s)' % tuple(coq_string(x) for x in w) for w in inv) + ' ].']
+    return '\n'.join(lines) + '\n'
+
+
+TRANSLATORS = [('ThreadProg.v', tr_threadprog), ('Consts.v', tr_consts), ('Preds.v', tr_preds), ('SymbolOps.v', tr_symbolops), ('Writes.v', tr_writes), ('Index.v', tr_index)]
 
 
 FAILED = {}
